@@ -5,7 +5,10 @@ CONSTANTS a, b, c
 ObjSeqDef == IF c \in Obj THEN <<a, b, c>> ELSE <<a, b>>
 ActsC20 == {"New", "NewLike", "Store", "SetItem", "SetItemFxp", "GetItem", "CtorLike", "Like", "DeepCopy", "Resize", "Reset", "SetCfg", "SetCfgBad", "BinOp", "Neg", "Assign", "RShiftKeep", "LShiftKeep", "Invert"}
 ActsC20Neg == (ActsC20 \ {"Like"}) \cup {"LikeShallow"}
-ActsC04 == {"New1", "Store", "SetItem", "SetItemFxp", "GetItem", "CtorLike", "Reset", "BinOp", "BinOpOut", "Resize", "SetCfg", "Assign"}
+ActsC04 == {"New1", "Store", "SetItem", "SetItemFxp", "GetItem", "Reset", "BinOp", "BinOpOut", "Resize", "SetCfg", "Assign"}
+\* (the quick instance of C04 has one rounding and one overflow mode, so SetCfg is never enabled there: the thorough instance, the C20
+\* instance and the probe appended to every replayed behaviour reconfigure objects)
+ActsC04q == ActsC04 \ {"SetCfg"}
 ActsC02 == {"New1", "Store", "SetItem", "SetItemFxp", "GetItem", "CtorLike", "Like", "DeepCopy", "Resize", "BinOp", "Neg", "Assign", "SetCfg"}
 \* the extension instance: the rest of C20's list of deriving operations (bitwise, expanding shifts, NumPy reductions, constants,
 \* in-place operators, raw stores) together with the mutations that expose sharing
